@@ -31,88 +31,42 @@ Proof.
   intros f H P near HP Hn. rewrite forallb_forall in H. apply H. apply in_params_domain; assumption.
 Qed.
 
-(* ---- the full statement, which the code as it stands violates ---- *)
-Definition params_match_T87_statement : Prop :=
-  forall P near, 2 <= P <= 16 -> 0 <= near <= near_max P -> jls_params P near = t87_params P near.
-
-(* P = 8, NEAR = 34: the coded T3 is 255 (clamp to MAXVAL), T.87 C.2.4.1.1.1 gives T3 = T2 = 177
-   (CLAMP returns its lower bound when the candidate exceeds MAXVAL). *)
-Theorem params_match_T87_refuted :
-  exists P near, 2 <= P <= 16 /\ 0 <= near <= near_max P /\
-                 jls_params P near <> t87_params P near /\
-                 jp_t3 (jls_params P near) = 255 /\ jp_t3 (t87_params P near) = 177.
-Proof.
-  exists 8, 34. repeat split; try (vm_compute; congruence).
-Qed.
-
-(* smallest instance: P = 3, NEAR = 2 *)
-Theorem params_match_T87_refuted_smallest :
-  jls_params 3 2 <> t87_params 3 2 /\
-  forallb (fun pn => jparams_eqb (jls_params (fst pn) (snd pn)) (t87_params (fst pn) (snd pn)))
-          (filter (fun pn => (fst pn <? 3) || ((fst pn =? 3) && (snd pn <? 2))) params_domain) = true.
-Proof. split; [vm_compute; discriminate | vm_compute; reflexivity]. Qed.
-
-(* ---- what is true ---- *)
-
 Lemma jparams_eqb_eq : forall a b, jparams_eqb a b = true -> a = b.
 Proof.
   intros [a1 a2 a3 a4 a5 a6 a7 a8 a9] [b1 b2 b3 b4 b5 b6 b7 b8 b9]. unfold jparams_eqb. cbn.
   rewrite !andb_true_iff, !Z.eqb_eq. intuition congruence.
 Qed.
 
-(* the candidate value of T3 before clamping, as T.87 C.2.4.1.1 computes it *)
-Definition t3_candidate (maxval near : Z) : Z :=
-  if maxval >=? 128 then (Z.min maxval 4095 + 128) / 256 * (21 - 4) + 4 + 7 * near
-  else Z.max 4 (21 / (256 / (maxval + 1)) + 7 * near).
-
-(* over the whole domain: the coded parameters are the standard's whenever the T3 candidate does
-   not exceed MAXVAL (otherwise they coincide only by accident, e.g. P = 2); everything except
-   T1..T3 always agrees *)
-Definition params_point_ok (pn : Z * Z) : bool :=
-  let '(P, near) := pn in
-  let a := jls_params P near in
-  let b := t87_params P near in
-  (negb (t3_candidate (2 ^ P - 1) near <=? 2 ^ P - 1) || jparams_eqb a b) &&
-  (jp_maxval a =? jp_maxval b) && (jp_near a =? jp_near b) && (jp_range a =? jp_range b) &&
-  (jp_qbpp a =? jp_qbpp b) && (jp_limit a =? jp_limit b) && (jp_reset a =? jp_reset b) &&
-  (a_init (jp_range a) =? t87_a_init (jp_range b)).
-
-Lemma params_domain_ok : forallb params_point_ok params_domain = true.
+Lemma params_domain_eq :
+  forallb (fun pn => jparams_eqb (jls_params (fst pn) (snd pn)) (t87_params (fst pn) (snd pn)) &&
+                     (a_init (jp_range (jls_params (fst pn) (snd pn))) =?
+                      t87_a_init (jp_range (t87_params (fst pn) (snd pn)))))
+          params_domain = true.
 Proof. vm_compute. reflexivity. Qed.
 
-Theorem params_match_T87_partial : forall P near,
+(* params_match_T87: for every P in 2..16 and NEAR in 0..min(255, MAXVAL/2) the coded parameter
+   function (RANGE, qbpp, LIMIT, T1, T2, T3, RESET) equals the standard's formulas, and so does
+   the initial value of A.
+   History: until /repo commit 44f34f1 this was refuted (finding F07): clamp(v, lo, hi) returned
+   hi for v > hi where T.87 Figure C.3 returns the lower bound; witness P = 8, NEAR = 34: coded
+   T3 = 255, T.87 T3 = T2 = 177; 483 of the 2302 pairs deviated, the smallest P = 3, NEAR = 2. *)
+Theorem params_match_T87 : forall P near,
   2 <= P <= 16 -> 0 <= near <= near_max P ->
-  let a := jls_params P near in
-  let b := t87_params P near in
-  (t3_candidate (2 ^ P - 1) near <= 2 ^ P - 1 -> a = b) /\
-  jp_maxval a = jp_maxval b /\ jp_near a = jp_near b /\ jp_range a = jp_range b /\
-  jp_qbpp a = jp_qbpp b /\ jp_limit a = jp_limit b /\ jp_reset a = jp_reset b /\
-  a_init (jp_range a) = t87_a_init (jp_range b).
+  jls_params P near = t87_params P near /\
+  a_init (jp_range (jls_params P near)) = t87_a_init (jp_range (t87_params P near)).
 Proof.
-  intros P near HP Hn a b.
-  pose proof (domain_forall _ params_domain_ok P near HP Hn) as H.
-  unfold params_point_ok in H. fold a b in H.
-  rewrite !andb_true_iff, !Z.eqb_eq in H.
-  destruct H as [[[[[[[H0 H1] H2] H3] H4] H5] H6] H7].
-  repeat split; try assumption.
-  intro Hc. apply jparams_eqb_eq. apply Z.leb_le in Hc. rewrite Hc in H0. exact H0.
+  intros P near HP Hn.
+  pose proof (domain_forall _ params_domain_eq P near HP Hn) as H. cbn [fst snd] in H.
+  apply andb_true_iff in H. destruct H as [H1 H2].
+  split; [apply jparams_eqb_eq; exact H1 | apply Z.eqb_eq; exact H2].
 Qed.
 
-(* NEAR = 0 (C03, and the lossless half of C14): the coded parameters are the standard's *)
-Theorem params_match_T87_lossless : forall P, 2 <= P <= 16 -> jls_params P 0 = t87_params P 0.
-Proof.
-  intros P HP.
-  assert (H : forallb (fun P => jparams_eqb (jls_params P 0) (t87_params P 0)) (zrange 2 15) = true)
-    by (vm_compute; reflexivity).
-  rewrite forallb_forall in H. apply jparams_eqb_eq. apply H. apply in_zrange. lia.
-Qed.
+(* the historical witness now agrees *)
+Example params_P8_NEAR34 : jp_t3 (jls_params 8 34) = 177 /\ jp_t3 (t87_params 8 34) = 177.
+Proof. split; vm_compute; reflexivity. Qed.
 
-(* number of (P, NEAR) pairs of the domain, and of those where the thresholds deviate *)
+(* number of (P, NEAR) pairs of the domain *)
 Lemma params_domain_size : length params_domain = 2302%nat.
-Proof. vm_compute. reflexivity. Qed.
-Lemma params_deviating_count :
-  length (filter (fun pn => negb (jparams_eqb (jls_params (fst pn) (snd pn)) (t87_params (fst pn) (snd pn))))
-                 params_domain) = 483%nat.
 Proof. vm_compute. reflexivity. Qed.
 
 (* ---- facts about the coded parameters that the coding theorems use, whole domain ---- *)
